@@ -68,6 +68,9 @@ type rt struct {
 	s      *sched.S
 	nprocs int
 	closed map[chan osm.Object]bool
+	// pending counts writers that have called Lock() on a mutex and not yet
+	// acquired it
+	pending map[*sync.RWMutex]int
 }
 
 func (r *rt) NProcs(int) int { return r.nprocs }
@@ -76,8 +79,19 @@ func (r *rt) Enter()         { r.s.Enter() }
 func (r *rt) Exit()          { r.s.Exit() }
 func (r *rt) Join()          { r.s.Yield("join", r.s.WorkersDone) }
 
+// BeforeRW models sync.RWMutex including its writer preference: a writer that
+// has CALLED Lock() blocks every later RLock() until it has acquired and
+// released the mutex. Because a simulated writer waits in the hook, not inside
+// the real Lock(), the real mutex never sees a pending writer; the pending
+// state is therefore kept here. The call to Lock() is a scheduling point of
+// its own ("lock-call"), so both orders of a racing RLock()/Lock() pair are
+// explored. Without this, lock-order inversions between read locks — harmless
+// for plain reader/writer locks, fatal with writer preference — could not
+// deadlock in simulation although they do in reality.
 func (r *rt) BeforeRW(mx *sync.RWMutex, write bool) {
 	if write {
+		r.s.Yield("lock-call", nil)
+		r.pending[mx]++
 		r.s.Yield("lock", func() bool {
 			if mx.TryLock() {
 				mx.Unlock()
@@ -85,9 +99,13 @@ func (r *rt) BeforeRW(mx *sync.RWMutex, write bool) {
 			}
 			return false
 		})
+		r.pending[mx]--
 		return
 	}
 	r.s.Yield("rlock", func() bool {
+		if r.pending[mx] > 0 {
+			return false
+		}
 		if mx.TryRLock() {
 			mx.RUnlock()
 			return true
@@ -462,7 +480,7 @@ func (r *run) exec() {
 			}
 		}
 	}
-	runtime := &rt{s: s, nprocs: r.nprocs, closed: map[chan osm.Object]bool{}}
+	runtime := &rt{s: s, nprocs: r.nprocs, closed: map[chan osm.Object]bool{}, pending: map[*sync.RWMutex]int{}}
 	gosm.Sim = runtime
 	var data *gosm.Data
 	var err error
